@@ -440,6 +440,79 @@ func refSelfBIP32(ev *Ev) {
 	}
 }
 
+// ---- kind: crafted parents ----------------------------------------------------------------------
+// Keys reached from seeds have uniformly random scalars and chain codes; the arithmetic of a derivation step
+// (scalar addition modulo n, point addition, serialisation) has its corner cases where machine words are all
+// ones or zero and carries run across them.  Parents with such scalars are built directly (NewExtendedKey) and
+// every kind of child is compared with the reference, private route against public route included.
+
+type c04Crafted struct {
+	Scalar HexBytes `json:"scalar"` // 32 bytes, in [1, n-1]
+	Chain  HexBytes `json:"chain"`  // 32 bytes
+	Idx    []uint32 `json:"indices"`
+	Net    int      `json:"net"`
+}
+
+func evalC04Crafted(c c04Crafted, o *Obs) error {
+	if len(c.Scalar) != 32 || len(c.Chain) != 32 || c.Net < 0 || c.Net >= len(nets) {
+		return hbug("bad crafted parent")
+	}
+	k := new(big.Int).SetBytes(c.Scalar)
+	if k.Sign() == 0 || k.Cmp(curveN) >= 0 {
+		return hbug("scalar out of range")
+	}
+	p := nets[c.Net].Params
+	r := &refKey{Version: p.HDPrivateKeyID, Depth: 3, ChildNum: 7, Priv: k}
+	copy(r.Chain[:], c.Chain)
+	copy(r.ParentFP[:], []byte{1, 2, 3, 4})
+	r.X, r.Y = pubPoint(c.Scalar)
+	key := hdkeychain.NewExtendedKey(append([]byte{}, p.HDPrivateKeyID[:]...), append([]byte{}, c.Scalar...), append([]byte{}, c.Chain...), []byte{1, 2, 3, 4}, 3, 7, true)
+	o.NT()
+	o.Class("C04:crafted-parent")
+	if err := compareNode(key, r, c.Net, "crafted parent"); err != nil {
+		return err
+	}
+	pubKey, err := key.Neuter()
+	if err != nil {
+		return fmt.Errorf("crafted parent: Neuter failed: %v", err)
+	}
+	rn := r.neuter()
+	for _, i := range c.Idx {
+		want, rerr := r.child(i)
+		got, err := key.Child(i)
+		if rerr != nil {
+			continue
+		}
+		where := fmt.Sprintf("crafted parent (scalar %x, chain code %x).Child(%d)", []byte(c.Scalar), []byte(c.Chain), i)
+		if err != nil {
+			return fmt.Errorf("%s failed: %v", where, err)
+		}
+		if err := compareNode(got, want, c.Net, where); err != nil {
+			return err
+		}
+		if i < 0x80000000 { // the public route arrives at the neutered private child
+			gp, err := pubKey.Child(i)
+			wp, _ := rn.child(i)
+			if err != nil || wp == nil {
+				return fmt.Errorf("%s by the public route failed: %v", where, err)
+			}
+			if err := compareNode(gp, wp, c.Net, where+" (public route)"); err != nil {
+				return err
+			}
+		}
+	}
+	return nil
+}
+
+var kC04Crafted = register(&Kind[c04Crafted]{Prop: "C04", Name: "crafted-parent", Eval: evalC04Crafted,
+	Gen: func(t *rapid.T) c04Crafted {
+		c := c04Crafted{Scalar: genScalar(t, "k"), Chain: genBytesN(t, "chain", 32), Net: genNet(t)}
+		for n := rapid.IntRange(2, 8).Draw(t, "nidx"); n > 0; n-- {
+			c.Idx = append(c.Idx, genIndex(t))
+		}
+		return c
+	}})
+
 func TestC04(t *testing.T) {
 	propTest(t, "C04", func(ev *Ev) {
 		ev.Rule("seed (16..64 bytes, biased; plus illegal lengths) x network (and SetNet) x path (0..11 steps usually; indices from "+
@@ -490,6 +563,7 @@ func TestC04(t *testing.T) {
 			}
 		}
 		kC04.Run(t, ev, perShard(pick(600, 200000)))
+		kC04Crafted.Run(t, ev, perShard(pick(1200, 300000)))
 		ev.requireClasses("C04:illegal-seed-length", "C04:depth-255", "C04:hardened-step", "C04:normal-step",
 			"C04:hardened-step-after-leading-zero-scalar", "C04:hardened-step-after-two-leading-zero-bytes", "C04:setnet", "C04:net=simnet", "C04:seedlen=16", "C04:seedlen=64")
 	})
